@@ -37,6 +37,10 @@ class Mon(drivers.Monitor):
             ex.violation((rid, "line_count_changed"), {"before": len(bl), "after": len(al), "reported": sorted(reported)[:10]})
             return
         changed_lines = {i + 1 for i, (x, y) in enumerate(zip(bl, al)) if x != y}
+        if getattr(rule, "case", None) not in (None, "upper", "lower"):
+            # docs/configuring_uppercase_and_lowercase_rules.rst: upper_or_lower "will not perform any updates to the code"; the
+            # pattern styles cannot be derived from an arbitrary identifier either: such reports are documented as not repairable
+            reported = reported & changed_lines
         if changed_lines != reported:
             extra = sorted(changed_lines - reported)
             missing = sorted(reported - changed_lines)
